@@ -72,6 +72,10 @@ CLASSES = {"A": ADENYLATIONS, "AT": ACYLTRANSFERASES, "C": CONDENSATIONS, "S": A
 ALL_NAMES = tuple(name for group in CLASSES.values() for name in group)
 CLASS_OF = {name: key for key, group in CLASSES.items() for name in group}
 DOUBLE_CASE = ("LPG_synthase_C", "Beta_elim_lyase")
+# the documented exception to "only incomplete fragments are merged": a leading module that is complete merely because
+# a loader-only module counts as complete at the start of a gene may still be the rest of a module split between genes
+# when it opens with an adenylation / acyltransferase domain or the Interface half of a fused domain.  CAL_domain and
+# SAT are explicit (alternate) starters and open a module of their own.
 FUSED_STARTERS = set(ADENYLATIONS) | set(ACYLTRANSFERASES) | {"Interface"}
 KS_SUBTYPES = ("Trans-AT-KS", "Modular-KS", "Iterative-KS", "Hybrid-KS", "Enediyne-KS")
 MONOMER_BASES = ("", "mal", "mmal", "pk", "ala", "AHBA")
@@ -550,6 +554,8 @@ def check_pair(spec: dict) -> dict:
     before_prev, before_cur = _snapshot(previous.modules), _snapshot(current.modules)
     all_before = [key for _, comps in before_prev + before_cur for key in comps]
     head_complete = previous.modules[-1].is_complete() if previous.modules else None
+    tail_complete = current.modules[0].is_complete() if current.modules else None
+    tail_first = current.modules[0].components[0].domain.hit_id if current.modules else None
 
     with code_under_test("combine_total"):
         result = combine_modules(current, previous)
@@ -581,6 +587,9 @@ def check_pair(spec: dict) -> dict:
         if expected is not None:
             raise Violation("merge_expected", dict(readable, expected=[c["id"] for c in expected.comps]))
         classes.append("attempt_no_merge" if attempt else "no_attempt")
+        if attempt and tail_complete:
+            classes.append("complete_tail_fused_starter_not_merged" if tail_first in FUSED_STARTERS
+                           else "complete_tail_other_opening_refused")
     else:
         if not same_strand:
             raise Violation("merge_across_strands", readable)
@@ -588,6 +597,10 @@ def check_pair(spec: dict) -> dict:
             raise Violation("merge_without_modules", readable)
         if head_complete:
             raise Violation("merge_of_complete_head", readable)
+        if tail_complete and tail_first not in FUSED_STARTERS:
+            raise Violation("merge_of_complete_tail", dict(readable, merged=_describe(result)))
+        if tail_complete:
+            classes.append("merged_complete_tail_with_fused_starter")
         if [m for m, _ in after_prev] != [m for m, _ in before_prev[:-1]] + [result]:
             raise Violation("merge_previous_list", readable)
         absorbed = len(before_cur) - len(after_cur)
@@ -679,6 +692,7 @@ def check_pipeline(spec: dict) -> dict:
         with code_under_test("pipeline_total"):
             results = di.generate_domains(record)
     seen: dict = {}
+    complete_tails: list = []
     multi = 0
     total = 0
     for cds, cds_result in results.cds_results.items():
@@ -721,6 +735,13 @@ def check_pipeline(spec: dict) -> dict:
                 with code_under_test("flags_total"):
                     if not module.is_complete():
                         raise Violation("merge_incomplete", {"where": where, "module": _describe(module)})
+                # the leading module of the downstream gene was incomplete, or complete only as a loader-only
+                # first module opening with a fused starter
+                leading = model_partition(gene_components(genes[distinct[-1]], distinct[-1]))[0]
+                if leading.complete(True):
+                    if leading.comps[0]["id"] not in FUSED_STARTERS:
+                        raise Violation("merge_of_complete_tail", {"where": where, "module": _describe(module)})
+                    complete_tails.append(where)
             problems = layout_problems(comps)
             if problems:
                 raise Violation("layout", {"where": where, "module": _describe(module), "broken": problems})
@@ -825,6 +846,18 @@ def check_pipeline(spec: dict) -> dict:
                "strands_" + "".join("+" if s == 1 else "-" for s in spec["strands"])]
     if any(not gene["doms"] and not gene.get("motifs") for gene in genes):
         classes.append("gene_without_hits")
+    if complete_tails:
+        classes.append("merged_complete_tail_with_fused_starter")
+    for index in range(1, len(genes)):
+        # a complete loading module at the start of the downstream gene behind a gene with modules, same strand
+        if spec["strands"][index - 1] == spec["strands"][index] and genes[index - 1]["doms"] and genes[index]["doms"]:
+            down = index - 1 if spec["strands"][index] == -1 else index
+            parts = model_partition(gene_components(genes[down], down))
+            if parts and parts[0].complete(True) and parts[0].starter is parts[0].loader:
+                classes.append("downstream_gene_opens_with_complete_loading_module")
+                if parts[0].comps[0]["id"] not in FUSED_STARTERS:
+                    classes.append("downstream_gene_opens_with_complete_non_fused_loading_module")
+                break
     sites = [{(dom["id"], dom["s"], dom["e"]) for dom in gene["doms"]} for gene in genes]
     if any(one & two for one, two in zip(sites, sites[1:])):
         classes.append("neighbours_share_profile_and_coordinates")
@@ -987,6 +1020,11 @@ def enum_pairs(thorough: bool):
                     if len(up) + len(down) <= 2:
                         yield {"genes": [tokens_gene(up, "g0"), tokens_gene(down, "g1")], "strands": [1, -1]}
                         yield {"genes": [tokens_gene(up, "g0"), tokens_gene(down, "g1")], "strands": [-1, 1]}
+        # a complete loading module of every loader kind at the start of the downstream gene, behind every kind of
+        # trailing fragment
+        for up, down in loading_pairs():
+            yield {"genes": [tokens_gene(up, "g0"), tokens_gene(down, "g1")], "strands": [1, 1], "kind": "loading"}
+            yield {"genes": [tokens_gene(down, "g0"), tokens_gene(up, "g1")], "strands": [-1, -1], "kind": "loading"}
         # cut templates: every full template split at every point, followed by nothing / a lone KR / a new module
         done = set()
         for template in FULL_TEMPLATES:
@@ -1003,9 +1041,25 @@ def enum_pairs(thorough: bool):
     return cases
 
 
+def loading_pairs():
+    """ (upstream tokens, downstream tokens): downstream opens with loader + carrier (optionally behind a
+        non-functional domain, optionally followed by more), upstream ends with each kind of fragment """
+    ups = [(symbol,) for symbol in PAIR_SYMBOLS] + list(HEADS) + [("KS", "AT", "CP", "KS"), ("C", "A", "PCP", "C")]
+    for up in ups:
+        for loader in ("A", "AOX", "AT", "CAL"):
+            for carrier in ("CP", "PCP", "PP"):
+                for before, after in (((), ()), (("IF",), ()), (("X",), ()), ((), ("TE",)), ((), ("KS", "AT"))):
+                    yield tuple(up), before + (loader, carrier) + after
+
+
 def enum_pipeline(thorough: bool):
     def cases():
         limit = 4 if thorough else 3
+        for up, down in loading_pairs():
+            if down[0] in ("IF", "X") or len(down) > 3:
+                continue
+            yield {"genes": [tokens_gene(up, "g0"), tokens_gene(down, "g1")], "strands": [1, 1], "kind": "loading"}
+            yield {"genes": [tokens_gene(down, "g0"), tokens_gene(up, "g1")], "strands": [-1, -1], "kind": "loading"}
         for up in strings(PAIR_SYMBOLS, limit - 1, 1):
             for down in strings(PAIR_SYMBOLS, limit - len(up), 1):
                 yield {"genes": [tokens_gene(up, "g0"), tokens_gene(down, "g1")], "strands": [1, 1]}
@@ -1078,7 +1132,9 @@ HEADS = (("KS",), ("KS:T",), ("C", "A"), ("KS", "AT"), ("KS", "DH"), ("KS:T", "D
          ("KS", "ATd"), ("SAT",), ("KS:T", "CP"), ("C", "A", "MT"), ("KS", "AT", "KR"), ("IF", "A"), ("X", "A"))
 TAILS = (("CP",), ("CP", "TE"), ("CP", "TE", "KR"), ("CP", "E", "KR"), ("A", "CP"), ("CP", "KR"), ("AT", "CP"),
          ("CP", "CP", "LPG", "BEL"), ("KR", "CP"), ("DH", "KR", "CP", "TE"), ("PCP", "E"), ("PP",), ("A", "PCP", "TE"),
-         ("ATd", "CP", "KR"), ("MT", "PCP"), ("CP", "KR", "KR"), ("CP", "KR", "TE"), ("AT", "KR", "CP"), ("IF", "A", "CP"))
+         ("ATd", "CP", "KR"), ("MT", "PCP"), ("CP", "KR", "KR"), ("CP", "KR", "TE"), ("AT", "KR", "CP"), ("IF", "A", "CP"),
+         ("CAL", "CP"), ("CAL", "PCP"), ("CAL", "KR", "CP"), ("AOX", "PCP"), ("AT", "PP"), ("IF", "CAL", "CP"),
+         ("X", "CAL", "PCP"), ("A", "PCP", "E"))
 
 
 # --------------------------------------------------------------------------- random strategies
